@@ -294,8 +294,10 @@ func (c *compiler) compileType(y *Type, parent Leafable, isUnion bool) error {
 		resolvedMeta := Find(parent, y.path)
 		if resolvedMeta == nil {
 			return fmt.Errorf("%s - %s path cannot be resolved", SchemaPath(parent), y.ident)
+		} else if leafy, isLeaf := resolvedMeta.(HasType); !isLeaf {
+			return fmt.Errorf("%s - %s path must point to a leaf or leaf-list, not %s", SchemaPath(parent), y.ident, SchemaPath(resolvedMeta))
 		} else {
-			y.delegate = resolvedMeta.(HasType).Type()
+			y.delegate = leafy.Type()
 		}
 	} else {
 		y.delegate = y
